@@ -23,7 +23,8 @@ open IpcHub.PathMatch IpcHub.PatternDoc
     `partCount`, `initMatchers`, `User.init`, `ValidatePermission`, `CopyFrom`, `Scanner.Scan`,
     `NewScanner`), which fixes in particular the `strings.ToLower` / `strings.TrimSpace` /
     `strings.Trim(·, "/")` calls, the guards of `Match`, the wiring of the two rights and the
-    administrator default (expected shapes: Model/PathMatchExpect.lean). -/
+    administrator default (expected shapes: Model/PathMatchExpect.lean; name and password handling in
+    `User.init` / `CopyFrom` is left out). -/
 theorem c16_source_facts :
     IpcHub.Gen.authFactsUnknown = [] ∧ IpcHub.Gen.pathScannerTrims = false ∧
     IpcHub.Gen.pathScannerDelim = "/" ∧ IpcHub.Gen.sectionWildcard = "+" ∧
